@@ -42,6 +42,18 @@ def _grid(key):
         mdg = pp.meshing.cart_grid([np.array([[0.0, 2.0], [1.0, 1.0]]), np.array([[1.0, 1.0], [0.0, 2.0]])],
                                    [2, 2])
         g = mdg.subdomains(dim=1)[0]
+    elif key == "tip_line_inner":     # 1-D grid of an immersed fracture: both ends are tips
+        g = pp.meshing.cart_grid([np.array([[1.0, 3.0], [1.0, 1.0]])], [4, 2]).subdomains(dim=1)[0]
+    elif key == "tip_line_half":      # 1-D grid, one tip and one domain-boundary end
+        g = pp.meshing.cart_grid([np.array([[0.0, 2.0], [1.0, 1.0]])], [3, 2]).subdomains(dim=1)[0]
+    elif key == "tip_plane":          # 2-D fracture grid in 3-D: tip and domain-boundary faces
+        f = np.array([[1.0, 1.0, 1.0, 1.0], [1.0, 2.0, 2.0, 1.0], [0.0, 0.0, 1.0, 1.0]])
+        g = pp.meshing.cart_grid([f], [2, 3, 1]).subdomains(dim=2)[0]
+    elif key in ("tip_plane_cross_a", "tip_plane_cross_b"):
+        # two crossing immersed planes in 3-D: tip, domain-boundary AND fracture faces
+        f1 = np.array([[1.0, 1.0, 1.0, 1.0], [0.0, 3.0, 3.0, 0.0], [1.0, 1.0, 2.0, 2.0]])
+        f2 = np.array([[0.0, 2.0, 2.0, 0.0], [1.0, 1.0, 1.0, 1.0], [1.0, 1.0, 2.0, 2.0]])
+        g = pp.meshing.cart_grid([f1, f2], [2, 3, 3]).subdomains(dim=2)[0 if key.endswith("a") else 1]
     else:
         raise KeyError(key)
     g.compute_geometry()
@@ -50,7 +62,9 @@ def _grid(key):
 
 
 GRID_KEYS = ["cart_2x2", "cart_3x2", "cart_1x1", "tri_2x2", "cart_2x2x1", "tet_1x1x1", "frac_through",
-             "frac_half", "frac_inner", "frac_cross", "frac_3d", "frac_line_1d"]
+             "frac_half", "frac_inner", "frac_cross", "frac_3d", "frac_line_1d",
+             "tip_line_inner", "tip_line_half", "tip_plane", "tip_plane_cross_a", "tip_plane_cross_b"]
+TIP_KEYS = [k for k in GRID_KEYS if k.startswith("tip_")]
 
 CSTR = {"dir": "CDir", "neu": "CNeu", "rob": "CRob"}
 TY = {"dir": "Dir", "neu": "Neu", "rob": "Rob"}
@@ -106,6 +120,20 @@ def _py_cond(c):
     if c is None:
         return None
     return c[1] if c[0] == "one" else list(c[1])
+
+
+def _scramble(handed, nfc):
+    """Aliasing probe: overwrite IN PLACE every array / list that was handed to the
+    implementation (the caller reusing its work arrays)."""
+    for a in handed:
+        if isinstance(a, np.ndarray):
+            if a.dtype == bool:
+                a[:] = ~a
+            else:
+                a[:] = (a + 1) % max(nfc, 1)
+        elif isinstance(a, list):
+            for i in range(len(a)):
+                a[i] = "xx"
 
 
 def _snapshot(bc):
@@ -171,11 +199,14 @@ class C39(Prop):
         "covered: robin_weight / basis arrays, copy(), direct user writes that break the invariant.")
     technique = ("Coq proof (partition invariant preserved by every call, induction over call histories) "
                  "+ vm_compute execution correspondence on real grids")
-    rule = ("grid drawn from 12 real grids (Cartesian/simplex 2-D/3-D, five split fractured grids incl. "
+    rule = ("grid drawn from 17 real grids (Cartesian/simplex 2-D/3-D, five split fractured grids incl. "
             "through-going, immersed and crossing fractures, a 1-D fracture grid); scalar or vectorial "
             "class; constructor faces as index array or boolean mask (boundary faces, repeated faces, "
             "fracture faces, interior faces -> error, wrong mask size -> error), condition as string "
-            "or list (mixed case, unknown keyword, wrong length, None); then 0-6 further calls "
+            "or list (mixed case, unknown keyword, wrong length, None); 30% of the cases on five "
+            "lower-dimensional fracture grids WITH tip faces (1-D and 2-D, both classes); every array "
+            "or list handed to the implementation is overwritten in place after the call and the "
+            "flags re-read (aliasing probe); then 0-6 further calls "
             "(set_bc with the same variety, internal_to_dirichlet, manual component assignment); "
             "non-trivial = object constructed and at least one non-Neumann flag set")
     trusted = ["face tags of the real grid are the model's grid; masked numpy assignment = face-by-face"]
@@ -243,7 +274,7 @@ class C39(Prop):
 
     def generate(self, rng, n, tier):
         for _ in range(n):
-            key = rng.choice(GRID_KEYS)
+            key = rng.choice(TIP_KEYS) if rng.random() < 0.3 else rng.choice(GRID_KEYS)
             g = _grid(key)
             vect = rng.random() < 0.65
             f, c = self._gen_call(rng, g)
@@ -272,14 +303,23 @@ class C39(Prop):
         tags = [[bool(g.tags["domain_boundary_faces"][i]), bool(g.tags["fracture_faces"][i]),
                  bool(g.tags["tip_faces"][i])] for i in range(g.num_faces)]
         bf = sorted(int(i) for i in g.get_all_boundary_faces())
-        out, bc = _call(lambda: cls(g, _py_faces(case["faces"]), _py_cond(case["cond"])))
+        fa, ca = _py_faces(case["faces"]), _py_cond(case["cond"])
+        out, bc = _call(lambda: cls(g, fa, ca))
         res = {"tags": tags, "bf": bf, "dim": int(g.dim), "ctor": out,
-               "ctor_dump": None if bc is None else _snapshot(bc), "steps": []}
+               "ctor_dump": None, "steps": [], "alias": None}
         if bc is None:
             return res
-        for o in case["ops"]:
+        before = _snapshot(bc)
+        _scramble([fa, ca], g.num_faces)
+        res["ctor_dump"] = _snapshot(bc)          # flags re-read after the probe
+        if before != res["ctor_dump"]:
+            res["alias"] = "the constructor"
+        for k, o in enumerate(case["ops"]):
+            handed = []
             if o[0] == "set":
-                x, _ = _call(lambda: bc.set_bc(_py_faces(o[1]), _py_cond(o[2])))
+                fa, ca = _py_faces(o[1]), _py_cond(o[2])
+                handed = [fa, ca]
+                x, _ = _call(lambda: bc.set_bc(fa, ca))
             elif o[0] == "internal":
                 x, _ = _call(lambda: bc.internal_to_dirichlet(g))
             else:
@@ -292,7 +332,12 @@ class C39(Prop):
                     bc.is_dir[idx] = o[3] == "dir"
                     bc.is_rob[idx] = o[3] == "rob"
                 x, _ = _call(poke)
-            res["steps"].append([x, _snapshot(bc)])
+            before = _snapshot(bc)
+            _scramble(handed, g.num_faces)
+            after = _snapshot(bc)
+            if before != after and res["alias"] is None:
+                res["alias"] = f"call {k} {o[0]}"
+            res["steps"].append([x, after])
         return res
 
     # ------------------------------------------------------------------ oracle
@@ -311,6 +356,9 @@ class C39(Prop):
     def oracle(self, case, res):
         if res["ctor_dump"] is None:
             return None
+        if res.get("alias"):
+            return (f"aliasing: the flag arrays changed when the arrays handed to {res['alias']} "
+                    f"were overwritten in place afterwards (the object shares memory with its arguments)")
         nfc = len(res["tags"])
         bf = set(res["bf"])
         frac = {i for i, t in enumerate(res["tags"]) if t[1]}
